@@ -127,17 +127,14 @@ func c02confirm(c *Ctx, r *Report, rule string) {
 				if provablyTrue {
 					nReports++
 					o := r.Add(rule, where, "SetSent(mid, rej) under rej", c.pos(instr.Pos()))
-					// reported early: must be removed from the pending set in the same block
-					deleted := false
-					for _, in := range instr.Block().Instrs {
-						if call, ok := in.(*ssa.Call); ok && callName(&call.Call) == "builtin.delete" && call.Call.Args[1] == x.Common().Args[0] {
-							deleted = true
-						}
-					}
-					if deleted {
-						o.OK("rejected is the very value tested by the enclosing branch; the MID is deleted from the pending set in the same step")
+					// reported early: must be removed from the pending set in the same step (ip_j1.go)
+					if ok, why := c.droppedWithReport(x); ok {
+						o.OK("%s", why)
 					} else {
-						o.Bad("a rejected MID is reported here but stays in the pending set: it is reported a second time after the confirmation")
+						if why != "" {
+							why = " (" + why + ")"
+						}
+						o.Bad("a rejected MID is reported here but stays in the pending set: it is reported a second time after the confirmation%s", why)
 					}
 					return
 				}
